@@ -90,6 +90,17 @@ def _lattice(rng, tier):
                 nlev = {"f": rng.choice([2, 3]), "g": rng.choice([2, 3]), "h": 2}
                 fr = gen_dm.make_frame(rng, factorial=True, cats=["f", "g", "h"], nlev=nlev, extra_cols=False, reps=4)
                 out.append({"formula": f, "frame": fr, "na": "drop", "kind": "numlattice", "family": fam, "icpt": icpt})
+    # a categorical variable with exactly ONE observed level: wherever reduced coding is chosen it contributes no
+    # column at all (its indicator is the constant / the sum of another factor's indicators)
+    for fml, icpt in [("y ~ h", True), ("y ~ f + h", True), ("y ~ 0 + f + h", False), ("y ~ x + f + C(h)", True),
+                      ("y ~ g + f + T(h)", True), ("y ~ 0 + h", False), ("y ~ f + S(h)", True)]:
+        fr = gen_dm.make_frame(rng, factorial=True, cats=["f", "g"], nlev={"f": 3, "g": 2, "h": 1}, extra_cols=False, reps=3)
+        for col in fr["columns"]:
+            if col["name"] == "h":
+                col["values"] = ["u"] * len(col["values"])
+        terms = [t.strip() for t in fml.split("~")[1].split("+") if t.strip() not in ("0",)]
+        fam = [[re.sub(r"^[A-Za-z]*\(|\)$", "", t)] for t in terms]
+        out.append({"formula": fml, "frame": fr, "na": "drop", "kind": "one-level", "family": fam, "icpt": icpt})
     four = list(fams(("f", "g", "h", "c")))
     if tier != "thorough":
         four = rng.sample(four, 300)
